@@ -49,6 +49,7 @@ class Env:
         FL.fcntl = stubs.KFcntl(self.k)
         FL.time = self.time
         FL.threading = self.threading
+        FL.open = stubs.model_open
         self.w.on_kill = self.k.kill
 
     def lock(self, timeout=-1, reentrant=False, path=PATH):
